@@ -272,6 +272,19 @@ class Interp:
                     newv = z3.If(p, v, dv)
                 kw.entries[k] = (True, newv)
                 return newv
+            if e.func.attr in ('get', 'pop') and e.args:
+                k = ast.literal_eval(e.args[0])
+                dv = self.val(self.ev(e.args[1], path)) if len(e.args) > 1 else self.const(None)
+                p, v = kw.entries.get(k, (False, self.NOTPASSED))
+                if e.func.attr == 'pop':
+                    if len(e.args) == 1 and p is not True:
+                        self.issues.append('kwargs.pop(%r) although the key may be absent (KeyError)' % k)
+                    kw.entries[k] = (False, self.NOTPASSED)
+                if p is True:
+                    return v
+                if p is False:
+                    return dv
+                return z3.If(p, v, dv)
             raise Unsupported('kwargs.%s' % e.func.attr)
         if self.oracle and d == 'user':
             k = ast.literal_eval(e.args[0])
@@ -384,6 +397,20 @@ class Interp:
                 q.pc.append(cond)
                 outs.extend(self.run(body, [q]))
             return outs
+        if isinstance(s, ast.Delete):
+            for t in s.targets:
+                if isinstance(t, ast.Subscript):
+                    base = self.ev(t.value, path)
+                    k = ast.literal_eval(t.slice)
+                    if isinstance(base, KW):
+                        if base.entries.get(k, (False, None))[0] is not True:
+                            self.issues.append('del kwargs[%r] although the key may be absent (KeyError)' % k)
+                        base.entries[k] = (False, self.NOTPASSED)
+                        continue
+                raise Unsupported('del of something else than a kwargs entry')
+            return [path]
+        if isinstance(s, ast.Pass):
+            return [path]
         raise Unsupported('statement %s' % type(s).__name__)
 
 
